@@ -411,6 +411,9 @@ func (e *Engine) fieldOf(st *State, base Val, name string) Val {
 		if b.C != nil {
 			return e.fieldOf(st, e.load(st, b, nil), name)
 		}
+		if b.Nil {
+			panic(&NilDeref{"field " + name + " of a nil pointer in a contract expression"})
+		}
 	case *IfaceV:
 		if b.Dyn != nil {
 			return e.fieldOf(st, b.V, name)
@@ -1095,6 +1098,79 @@ func (e *Engine) evalCall(env *Env, x *Expr) Val {
 		d := fmt.Sprintf("pbdec_%s_%s", typeTag(pbT), x.Args[1].Name)
 		e.C.DeclareFun(d, []Sort{SStr}, s)
 		return &Term{S: s, T: fmt.Sprintf("(%s %s)", d, b.T)}
+	case "fromhex", "hash32", "keccak", "rlpdec":
+		evalArgs()
+		f := map[string]string{"fromhex": "from_hex", "hash32": "hash32", "keccak": "keccak", "rlpdec": "rlp_dec_bytes"}[x.Name]
+		e.C.DeclareFun(f, []Sort{SStr}, SStr)
+		return mk(SStr, "("+f+" "+term(0, SStr).T+")")
+	case "rlpok":
+		evalArgs()
+		e.C.DeclareFun("rlp_ok", []Sort{SStr}, SBool)
+		return mkBool("(rlp_ok " + term(0, SStr).T + ")")
+	case "intrie":
+		evalArgs()
+		e.C.DeclareFun("in_trie", []Sort{SStr, SStr, SStr}, SBool)
+		return mkBool(fmt.Sprintf("(in_trie %s %s %s)", term(0, SStr).T, term(1, SStr).T, term(2, SStr).T))
+	case "lpad":
+		evalArgs()
+		e.C.DeclareFun("lpad", []Sort{SStr, BV(64)}, SStr)
+		return mk(SStr, fmt.Sprintf("(lpad %s %s)", term(0, SStr).T, term(1, BV(64)).T))
+	case "bigbytes":
+		evalArgs()
+		e.C.DeclareFun("big_of", []Sort{BV(64)}, "Obj")
+		e.C.DeclareFun("big_bytes", []Sort{"Obj"}, SStr)
+		return mk(SStr, "(big_bytes (big_of "+term(0, BV(64)).T+"))")
+	case "hashbig":
+		evalArgs()
+		e.C.DeclareFun("hash_big", []Sort{SStr}, "Obj")
+		return mk("Obj", "(hash_big "+term(0, SStr).T+")")
+	case "seqobj":
+		evalArgs()
+		e.C.DeclareFun("seq_obj", []Sort{"Obj", BV(64)}, "Obj")
+		return mk("Obj", fmt.Sprintf("(seq_obj %s %s)", term(0, "Obj").T, term(1, BV(64)).T))
+	case "rlpenc":
+		// rlpenc(Type, field terms...): the uninterpreted RLP encoder of a struct type
+		if len(x.Args) < 1 {
+			unsupported("rlpenc(Type, fields...)")
+		}
+		rT, err := e.W.LookupType(env.pkg, x.Args[0].String())
+		if err != nil {
+			unsupported("%v", err)
+		}
+		var rs []Sort
+		var ras []string
+		for _, a := range x.Args[1:] {
+			t, ok := e.evalExpr(env, a).(*Term)
+			if !ok {
+				unsupported("rlpenc argument %s", a)
+			}
+			rs = append(rs, t.S)
+			ras = append(ras, t.T)
+		}
+		rn := "rlp_enc_" + typeTag(rT)
+		e.C.DeclareFun(rn, rs, SStr)
+		return mk(SStr, "("+rn+" "+strings.Join(ras, " ")+")")
+	case "pbvalid":
+		// pbvalid(T, bytes): bytes is a valid proto encoding of message type T (what Unmarshal's error decides)
+		if len(x.Args) != 2 {
+			unsupported("pbvalid(Type, bytes)")
+		}
+		pvT, err := e.W.LookupType(env.pkg, x.Args[0].String())
+		if err != nil {
+			unsupported("%v", err)
+		}
+		pvn := "pb_valid_" + typeTag(pvT)
+		e.C.DeclareFun(pvn, []Sort{SStr}, SBool)
+		return mkBool("(" + pvn + " " + e.coerceTo(env, e.evalExpr(env, x.Args[1]), SStr).T + ")")
+	case "keyrepr":
+		// the byte/string representation of a key (what the key builder returns)
+		evalArgs()
+		e.C.DeclareFun("repr", []Sort{SKey}, SStr)
+		return mk(SStr, "(repr "+term(0, SKey).T+")")
+	case "unixnano":
+		evalArgs()
+		e.C.DeclareFun("time_unixnano", []Sort{SInt}, BV(64))
+		return mkBV(64, "(time_unixnano "+term(0, SInt).T+")", true)
 	case "optstr":
 		// string(store.Get(k)): "" when absent
 		evalArgs()
@@ -1257,6 +1333,9 @@ func (e *Engine) evalCall(env *Env, x *Expr) Val {
 		f := map[string]string{"unix": "time_unix", "nsec": "time_nsec"}[x.Name]
 		e.C.DeclareFun(f, []Sort{SInt}, BV(64))
 		return mkBV(64, "("+f+" "+term(0, SInt).T+")", true)
+	}
+	if v, ok := e.tmBuiltin(env, x); ok {
+		return v
 	}
 	if x.Name == "inClient" {
 		// inClient(k, c): k is a key below client c's prefix store (any declared client-store key family)
